@@ -29,6 +29,7 @@ package proposal
 
 //@ ghost proposalStatusWrites int
 //@ ghost proposalCreates int
+//@ ghost lastProposalGetOK bool
 
 //@ spec initState(p *configapi.Proposal) int = ite(p.Status.Phases.Initialize == nil, 0 - 1, p.Status.Phases.Initialize.State)
 //@ spec validateState(p *configapi.Proposal) int = ite(p.Status.Phases.Validate == nil, 0 - 1, p.Status.Phases.Validate.State)
@@ -44,7 +45,8 @@ package proposal
 //@ spec proposalWellFormed(p *configapi.Proposal) bool = p.Details != nil && (isType(p.Details, "*configapi.Proposal_Change") ==> asType(p.Details, "*configapi.Proposal_Change") != nil && asType(p.Details, "*configapi.Proposal_Change").Change != nil) && (isType(p.Details, "*configapi.Proposal_Rollback") ==> asType(p.Details, "*configapi.Proposal_Rollback") != nil && asType(p.Details, "*configapi.Proposal_Rollback").Rollback != nil) && (isType(p.Details, "*configapi.Proposal_Change") || isType(p.Details, "*configapi.Proposal_Rollback"))
 
 //@ iface Store.Get(ctx, id) (result, err)
-//@   modifies nothing
+//@   modifies lastProposalGetOK
+//@   ensures lastProposalGetOK == (err == nil)
 //@   ensures err != nil ==> result == nil
 //@   ensures err == nil ==> result != nil && fresh(result) && proposalSnapshotted(result) && proposalWellFormed(result)
 
